@@ -33,6 +33,42 @@ def setup_imports():
     return pulsarbat
 
 
+_UUID = {"n": 0, "installed": False}
+
+
+def _install_uuid():
+    """Dask names some tasks with uuid4() (finalize tasks of a compute, impure delayed,
+    non-tokenizable objects). Key strings break ties in Dask's task order, so the
+    simulation process replaces uuid4/uuid1 by a counter that is reset at the start
+    of every run."""
+    import uuid
+    if _UUID["installed"]:
+        return
+
+    def fake(*a, **kw):
+        _UUID["n"] += 1
+        return uuid.UUID(int=(0x5eed << 96) | _UUID["n"])
+
+    uuid.uuid4 = fake
+    uuid.uuid1 = fake
+    _UUID["installed"] = True
+
+
+def reset_run_state():
+    """Forget everything a previous run in this process may have left behind."""
+    pb = setup_imports()
+    _install_uuid()
+    _UUID["n"] = 0
+    pb.utils.next_fast_len.cache_clear()
+    pb.utils.prev_fast_len.cache_clear()
+    return pb
+
+
+def clear_library_caches(pb):
+    pb.utils.next_fast_len.cache_clear()
+    pb.utils.prev_fast_len.cache_clear()
+
+
 class Violation(Exception):
     """Raised by an oracle; ends the run."""
 
